@@ -50,8 +50,8 @@ type CompScenario struct {
 	Pool       []ChildSpec  `json:"pool"`
 	Configs    []CompConfig `json:"configs"`
 	Ops        []CompOp     `json:"ops"`
-	YieldOp    string       `json:"yieldOp"` // stop | cancel | "" — injected at the reloadWithRestart.beforeBoot yield point
-	Sequential bool         `json:"seq"`     // operations are issued one after the other (each waits for the previous to finish)
+	YieldOp    string       `json:"yieldOp"`   // stop | cancel | "" — injected at the reloadWithRestart.beforeBoot yield point
+	Sequential bool         `json:"seq"`       // operations are issued one after the other (each waits for the previous to finish)
 	PreCancel  bool         `json:"preCancel"` // the context is cancelled before Run() is invoked
 }
 
